@@ -83,8 +83,50 @@ let buf_obs (st : state) (name : string) (sz : op) (em : op) (iv : op) (bl : buf
   let inner = Printf.sprintf "%s:%s@%s" name (String.concat "." (List.map hex_of_bytes segs)) lay in
   spec, inner
 
+let pools_of (m : string) : int list =
+  if m = "-" then [] else List.init (String.length m) (fun k -> Char.code m.[k] - Char.code 'A')
+
+let handle_c (label, bsa, bsb, qm, sm, ops) : string =
+  let qp = pools_of qm and sp = pools_of sm in
+  let st = ref (init2 [nat (ios bsa); nat (ios bsb)] (List.map nat qp) (List.map nat sp)) in
+  let b = Buffer.create 1024 in
+  Buffer.add_string b ("class=" ^ label);
+  let known = ref false in
+  let obs2 o = snd (ok (step2 !st o)) in
+  let one name sz em iv bl =
+    let segs = match obs2 iv with OVec l -> l | _ -> [] in
+    let spec = Printf.sprintf "%s:%s,%s,%s" name (out_s (obs2 sz)) (out_s (obs2 em))
+        (hex_of_bytes (List.concat segs)) in
+    let lay = String.concat "." (List.map (fun (f, l) ->
+        Printf.sprintf "%d-%d" (int_of_nat f) (int_of_nat l)) (buf_layout bl)) in
+    spec, Printf.sprintf "%s:%s@%s" name (String.concat "." (List.map hex_of_bytes segs)) lay in
+  (try
+    List.iteri (fun k t ->
+      (try
+        let st', o = ok (step2 !st (parse_op t)) in
+        st := st';
+        let specs = ref [] and inners = ref [] in
+        List.iteri (fun i (_, bl) ->
+          let s, n = one (Printf.sprintf "q%d" i) (QSize (nat i)) (QEmpty (nat i)) (QIOVec (nat i)) bl in
+          specs := s :: !specs; inners := n :: !inners) !st.m_q;
+        List.iteri (fun j (_, bl) ->
+          let s, n = one (Printf.sprintf "s%d" j) (SSize (nat j)) (SEmpty (nat j)) (SIOVec (nat j)) bl in
+          specs := s :: !specs; inners := n :: !inners) !st.m_s;
+        if not (acct2_ok !st) then known := true;
+        Buffer.add_string b (Printf.sprintf ";o%d=%s/%s/held-nonempty%s" k (out_s o)
+          (String.concat "/" (List.rev !specs)) (bool01 (noempty2_ok !st)));
+        Buffer.add_string b (Printf.sprintf ";a%d=%s" k (String.concat "/" (List.mapi (fun k ((a, f), h) ->
+          Printf.sprintf "P%d:%d,%d,%d" k (int_of_nat a) (int_of_nat f) (int_of_nat h)) (pool_obs !st))));
+        Buffer.add_string b (Printf.sprintf ";i%d=%s" k (String.concat "/" (List.rev !inners)))
+      with Hazard h ->
+        Buffer.add_string b (Printf.sprintf ";o%d=HAZARD:%s" k h); raise Exit)) ops
+  with Exit -> ());
+  if !known then Buffer.add_string b ";known=C15-crosspool";
+  Buffer.contents b
+
 let handle (p : string) : string =
   match split p with
+  | label :: bsa :: bsb :: qm :: sm :: ops when label.[0] = 'C' -> handle_c (label, bsa, bsb, qm, sm, ops)
   | [label; bsa; bsb; h; n] when label.[0] = 'P' ->
     (match cross_run (nat (ios bsa)) (nat (ios bsb)) (bytes_of_hex h) (nat (ios n)) with
      | Ok c ->
